@@ -16,8 +16,13 @@ BT = [0, 1, 127, 128, 255, 256, 65535, 65536, 2 ** 24, 2 ** 31 - 1]
 class AgentScript:
     """a v3 agent whose boots/time move between replies; remembers what it announced"""
 
-    def __init__(self, rng, peer, discover, change_p=0.5):
+    def __init__(self, rng, peer, discover, change_p=0.5, drop=()):
         self.rng, self.peer, self.discover = rng, peer, discover
+        self.drop = set(drop)   # indices of requests the network loses (no reply)
+        self.expect = []        # per request: (engine id, boots, time) the client must stamp, and whether it has its keys
+        self.current = (b"" if discover else peer.state.engine_id, 0, 0)
+        self.replied = 0
+        self.probes = 0
         self.st = peer.state
         self.st0 = ag.V3AgentState(b"", boots=0, time=0, user="")     # reads the default user's probe
         self.requests = []      # (datagram, decoded | error text)
@@ -34,10 +39,17 @@ class AgentScript:
             self.requests.append((dg, f"undecodable: {ex}"))
             return []
         self.requests.append((dg, d))
+        self.expect.append((self.current, (not self.discover) or self.replied > 0))
+        if d["pdu_type"] == 0 and not d["varbinds"]:
+            self.probes += 1
+            if self.probes - 1 in self.drop:
+                return []      # a lost probe (only probes are lost: the client retries refresh())
+        self.replied += 1
         if self.rng.random() < self.change_p:
             st.boots = self.rng.choice(BT + [self.rng.getrandbits(31)])
             st.time = self.rng.choice(BT + [self.rng.getrandbits(31)])
         self.announced.append((st.engine_id, st.boots, st.time))
+        self.current = (st.engine_id, st.boots, st.time)
         if d["pdu_type"] == 0 and not d["varbinds"]:
             if d["engine_id"] == b"":
                 return [st.report(d["request_id"], d["msg_id"], user=d["user"])]
@@ -62,12 +74,8 @@ def judge(script, configured_engine, results):
     for k, (dg, d) in enumerate(reqs):
         if isinstance(d, str):
             return f"request {k} is not readable by the agent ({d})"
-        if k == 0:
-            want_eng = configured_engine or b""
-            want_bt = (0, 0)
-        else:
-            e, b, t = script.announced[k - 1]
-            want_eng, want_bt = e, (b, t)
+        (want_eng, wb, wt), keyed = script.expect[k]
+        want_bt = (wb, wt)
         if d["engine_id"] != want_eng:
             return f"request {k} carries engine id {d['engine_id'].hex() or '-'} instead of {want_eng.hex() or '-'}"
         if d.get("ctx_engine_id", want_eng) != want_eng:
@@ -75,10 +83,9 @@ def judge(script, configured_engine, results):
         if (d["boots"], d["time"]) != want_bt:
             return (f"request {k} is stamped boots/time {(d['boots'], d['time'])} instead of {want_bt} "
                     "announced in the agent's latest reply")
-        keyed = d["engine_id"] != b"" and not (not configured_engine and k == 0)
         if keyed:
             if d["user"] != st.user:
-                return f"request {k} carries user {d['user']!r} instead of {st.user!r}"
+                return f"request {k} carries user {d['user']!r} instead of {st.user!r} (the user's keys were not installed)"
             why = c09.check_mac(st, dg)
             if why:
                 return f"request {k}: {why}"
@@ -101,21 +108,28 @@ def client_user(st):
     return User(st.user.decode(), auth_key=ak, priv_key=pk)
 
 
-def run_sync_client(rng, peer, discover, oids):
+def run_sync_client(rng, peer, discover, oids, drop=()):
     from gufo.snmp.sync_client import SnmpSession
-    script = AgentScript(rng, peer, discover)
+    script = AgentScript(rng, peer, discover, drop=drop)
     agent = e2e.ThreadAgent(lambda dg: [(0, r) for r in script(dg)])
     st = peer.state
     results = []
 
     def body():
-        with SnmpSession("127.0.0.1", port=agent.port, engine_id=None if discover else st.engine_id,
-                         user=client_user(st), timeout=2.0) as sess:
-            for o in oids:
-                results.append(sess.get(o))
-            if rng.random() < 0.5:
-                results.append(sess.get_many(oids[:2]))
-            return sess.get_engine_id()
+        sess = SnmpSession("127.0.0.1", port=agent.port, engine_id=None if discover else st.engine_id,
+                           user=client_user(st), timeout=0.25 if drop else 2.0)
+        for attempt in range(len(drop) + 1):
+            try:
+                sess.refresh()
+                break
+            except (TimeoutError, BlockingIOError):
+                if attempt == len(drop):
+                    raise
+        for o in oids:
+            results.append(sess.get(o))
+        if rng.random() < 0.5:
+            results.append(sess.get_many(oids[:2]))
+        return sess.get_engine_id()
     try:
         r = e2e.ncall(body)
     finally:
@@ -123,18 +137,25 @@ def run_sync_client(rng, peer, discover, oids):
     return script, r, results
 
 
-def run_async_client(rng, peer, discover, oids):
-    script = AgentScript(rng, peer, discover)
+def run_async_client(rng, peer, discover, oids, drop=()):
+    script = AgentScript(rng, peer, discover, drop=drop)
     st = peer.state
     results = []
 
     async def main(port):
         from gufo.snmp.async_client import SnmpSession
-        async with SnmpSession("127.0.0.1", port=port, engine_id=None if discover else st.engine_id,
-                               user=client_user(st), timeout=2.0) as sess:
-            for o in oids:
-                results.append(await sess.get(o))
-            return sess.get_engine_id()
+        sess = SnmpSession("127.0.0.1", port=port, engine_id=None if discover else st.engine_id,
+                           user=client_user(st), timeout=0.25 if drop else 2.0)
+        for attempt in range(len(drop) + 1):
+            try:
+                await sess.refresh()
+                break
+            except (TimeoutError, BlockingIOError):
+                if attempt == len(drop):
+                    raise
+        for o in oids:
+            results.append(await sess.get(o))
+        return sess.get_engine_id()
     r, _ = e2e.run_async(main, script)
     return script, r, results
 
@@ -163,8 +184,10 @@ def run(chk, model_ok=True):
         mode = "sync" if (k // 6) % 2 == 0 else "async"
         oids = [sessions.rand_oid_text(rng) or "1.3.6" for _ in range(rng.randrange(1, 5))]
         oids = [o for o in oids if o.count(".") >= 1] or ["1.3.6.1"]
-        script, r, results = (run_sync_client if mode == "sync" else run_async_client)(rng, peer, discover, oids)
-        key = f"{mode}:{peer.label}:{'discovered' if discover else 'configured'}"
+        # the network may lose the first probes (and the client retries refresh())
+        drop = () if k % 3 else rng.choice([(0,), (1,), (0, 1), (0, 2)])
+        script, r, results = (run_sync_client if mode == "sync" else run_async_client)(rng, peer, discover, oids, drop)
+        key = f"{mode}:{peer.label}:{'discovered' if discover else 'configured'}" + (f":lost{list(drop)}" if drop else "")
         hist[key] = hist.get(key, 0) + 1
         n_req += len(script.requests)
         line = f"# {key} engine={peer.state.engine_id.hex()} user={peer.state.user!r} oids={oids}"
